@@ -254,7 +254,7 @@ from qstrader.signals.signal import Signal
 from pyvc.core import Abort, Unmodelled
 from .common import UniverseStub, HAS
 
-UA_LOOP = 'Signal.update_assets#for extra_assets#0'
+UA_LOOP = 'Signal.update_assets#for _#0'
 
 
 class _TrackedAssets:
